@@ -19,9 +19,11 @@
 
 using namespace sim;
 
+static uint64_t g_budget = 400000000ull;   // step budget per execution (hang detection); SIM_BUDGET lowers it while minimising a hang
+
 // ------------------------------------------------------------------ one sequential execution of a plan
 struct RunCtl {
-  uint64_t env = 1; Fault fault; bool nothrow_fail_all = false; uint64_t budget = 400000000ull; int model = 0;
+  uint64_t env = 1; Fault fault; bool nothrow_fail_all = false; uint64_t budget = g_budget; int model = 0;
 };
 struct RunOut {
   TaskOut setup; std::vector<TaskOut> tasks;
@@ -321,7 +323,7 @@ static bool case_c14(const Plan& pl0, Stats& st, Violation& v) {
     if (cc.monitor_static) rt_static_snapshot();
     TaskArg ta{&pl, ws, &outs}; PrepCtx pc{&pl, ft};
     std::vector<SchedSeg> log(4096); size_t nlog = 0; SchedResult sr;
-    rt_run_tasks(pl.ntasks, task_fn, &ta, chooser, &cc, 400000000ull, log.data(), log.size(), &nlog, &sr, ctxs.data(), prep_fn, &pc);
+    rt_run_tasks(pl.ntasks, task_fn, &ta, chooser, &cc, g_budget, log.data(), log.size(), &nlog, &sr, ctxs.data(), prep_fn, &pc);
     work_shared_destroy(ws);
     if (ft.op >= 0) rt_arena_expect_leaks(); else rt_arena_preserve_live();
     rt_env_release();
@@ -392,6 +394,7 @@ int main(int argc, char** argv) {
   g_static_monitor = getenv("SIM_STATIC_MONITOR") != nullptr;
   if (getenv("SIM_FAULT_CAP")) g_fault_cap = atoi(getenv("SIM_FAULT_CAP"));
   if (getenv("SIM_MAX_PHASE")) g_max_phase = atoi(getenv("SIM_MAX_PHASE"));
+  if (getenv("SIM_BUDGET")) g_budget = strtoull(getenv("SIM_BUDGET"), nullptr, 10);
   if (getenv("SIM_SCHED_LOG")) g_sched_log = fopen(getenv("SIM_SCHED_LOG"), "w");
   if (cmd == "gen" && argc >= 6) {
     Plan p = gen_plan(argv[2], strtoull(argv[3], nullptr, 10), strtoull(argv[4], nullptr, 10), argv[5]);
